@@ -348,6 +348,41 @@ theorem live_iterator_reads_current_table (st : Sst.St) (i : Sst.Inv st) (betwee
   rw [s.2.2, r.2.1]
   rfl
 
+/-- `loader_promotion_resets_table` (round 5/2): sharedStringsLoader on a spilled shared strings part promotes it
+(Pkg has the bytes, tempFiles entry gone) **and resets File.SharedStrings** — whatever the cached table was (e.g. the
+empty placeholder decoded by a numeric-only read) and **whether or not the reader-index temp file exists** (`x`);
+the reset sits in the promotion branch (fact `sstLoaderPromotesThenRemoves`, pinned by `facts_ok`) -/
+theorem loader_promotion_resets_table (st : Sst.St) (hs : st.spilled = true) (x : Option (List String)) :
+    (Sst.sstLoad { st with index := x }).table = none ∧ (Sst.sstLoad { st with index := x }).spilled = false ∧
+    (Sst.sstLoad { st with index := x }).inPkg = true ∧ (Sst.sstLoad { st with index := x }).index = none ∧
+    (Sst.sstLoad { st with index := x }).part = st.part := by
+  simp [Sst.sstLoad, hs]
+
+/-- `loader_promotion_keeps_content` (round 5/2): in every state reachable from an open (any part, either tier,
+any history of reads / iterator reads / loader calls / string writes / saves) the promotion does not change the
+abstract table, and the reader that follows it decodes exactly that table (not a stale placeholder) -/
+theorem loader_promotion_keeps_content (part : Sst.Tab) (spilled inPkg : Bool)
+    (h : spilled = false → inPkg = false → part = []) (ops : List Sst.Op) :
+    Sst.abs (Sst.sstLoad (Sst.run { part := part, spilled := spilled, inPkg := inPkg } ops).1) =
+      Sst.abs (Sst.run { part := part, spilled := spilled, inPkg := inPkg } ops).1 ∧
+    (Sst.sstRead (Sst.sstLoad (Sst.run { part := part, spilled := spilled, inPkg := inPkg } ops).1)).table =
+      some (Sst.abs (Sst.run { part := part, spilled := spilled, inPkg := inPkg } ops).1) := by
+  have i := (Sst.run_refines ops (Sst.Inv.init part spilled inPkg h)).2.2
+  have l := Sst.loadRead_spec i
+  exact ⟨(Sst.sstLoad_spec i).2.1, l.2.2.2.2⟩
+
+/-- `write_after_numeric_read_uses_real_table` (round 5/2): the history of the C12b/1 class for **every** part and
+every written string: small UnzipXMLSizeLimit (part spilled), a numeric-only read first (caches the empty table,
+builds no index file), then a string write, then anything — every result is that of the plain list of the part's
+items (general form of the witness `first_write_after_numeric_read`) -/
+theorem write_after_numeric_read_uses_real_table (part : Sst.Tab) (key text : String) (ops : List Sst.Op) :
+    (Sst.sstRead { part := part, spilled := true, inPkg := false }).table = some [] ∧
+    (Sst.sstRead { part := part, spilled := true, inPkg := false }).index = none ∧
+    (Sst.run { part := part, spilled := true, inPkg := false } (.read :: .set key text :: ops)).2 =
+      (Sst.Spec.run part (.read :: .set key text :: ops)).2 := by
+  refine ⟨rfl, rfl, ?_⟩
+  exact (Sst.run_refines _ (Sst.Inv.init part true false (fun h => by cases h))).1
+
 /-- the first string write after numeric-only reads of a spilled table appends to the *real* table:
 witness of the C12b/1 / C02a/2 class (a placeholder table that survives the loader) being excluded -/
 theorem first_write_after_numeric_read :
